@@ -279,3 +279,11 @@ package cmpp20
 //@   ensures [C15 auth] result != nil && result.AuthenticatorSource == md5(cat(account, zeros(9), passwd, dec10(int(result.Timestamp)))) && len(result.AuthenticatorSource) == 16
 //@   ensures [C15 fields] result.SourceAddr == account && int(result.Timestamp) <= 1231235959
 //@   ensures [C10 header] int(result.Header.CommandID) == 1 && result.Header.SequenceID == seqID
+
+// ---------------------------------------------------------------- packet constructors (C10)
+//@ func NewTerminatePacket
+//@   props C10
+//@   ensures [C10 image] result == cat(be32(12), be32(int(cmpp.CommandTerminate)), be32(int(seqID)))
+//@ func NewActiveTestPacket
+//@   props C10
+//@   ensures [C10 image] result == cat(be32(12), be32(int(cmpp.CommandActiveTest)), be32(int(seqID)))
